@@ -131,11 +131,64 @@ theorem CInv_sublist (tb : Tables) (pc pc' : List (Key × Dec × Int)) (tc tc' :
     (h1 : ∀ e ∈ pc', e ∈ pc) (h2 : ∀ e ∈ tc', e ∈ tc) (h : CInv tb pc tc) : CInv tb pc' tc' :=
   ⟨fun e he => h.1 e (h1 e he), fun e he => h.2 e (h2 e he)⟩
 
-/-- **The lifting lemma.** If the invalidation `i` covers the class of a mutation (a finite check on
-the generated table) and the mutation's effect on the tables is within its class, the cache
-invariant survives the mutation followed by that invalidation. -/
+theorem SInv_of_sub (s s' : State) (htb : s'.tb = s.tb) (hp : ∀ e ∈ s'.permCache, e ∈ s.permCache)
+    (ht : ∀ e ∈ s'.tokCache, e ∈ s.tokCache) (h : SInv s) : SInv s' := by
+  unfold SInv; rw [htb]
+  exact ⟨h.1, CInv_sublist s.tb s.permCache s'.permCache s.tokCache s'.tokCache hp ht h.2⟩
+
+theorem invalidateTokenWith_props (drops : Bool) (scan : Scan) (t : Nat) (s : State) :
+    (∀ e ∈ (invalidateTokenWith drops scan t s).permCache, e ∈ s.permCache) ∧
+    (∀ e ∈ (invalidateTokenWith drops scan t s).tokCache, e ∈ s.tokCache) ∧
+    (invalidateTokenWith drops scan t s).tb = s.tb ∧ (invalidateTokenWith drops scan t s).mode = s.mode := by
+  cases drops <;> cases scan <;> simp only [invalidateTokenWith, dropTokData, dropTokPerm]
+  all_goals first
+    | exact ⟨fun e he => (List.mem_filter.1 he).1, fun e he => (List.mem_filter.1 he).1, rfl, rfl⟩
+    | exact ⟨fun e he => (List.mem_filter.1 he).1, fun e he => he, rfl, rfl⟩
+    | exact ⟨fun e he => he, fun e he => (List.mem_filter.1 he).1, rfl, rfl⟩
+    | exact ⟨fun e he => he, fun e he => he, rfl, rfl⟩
+    | (split
+       · first
+         | exact ⟨fun e he => (List.mem_filter.1 he).1, fun e he => (List.mem_filter.1 he).1, rfl, rfl⟩
+         | exact ⟨fun e he => (List.mem_filter.1 he).1, fun e he => he, rfl, rfl⟩
+       · first
+         | exact ⟨fun e he => he, fun e he => (List.mem_filter.1 he).1, rfl, rfl⟩
+         | exact ⟨fun e he => he, fun e he => he, rfl, rfl⟩)
+
+theorem invalidate_props (i : Inv) (t : Nat) (s : State) :
+    (∀ e ∈ (invalidate i t s).permCache, e ∈ s.permCache) ∧
+    (∀ e ∈ (invalidate i t s).tokCache, e ∈ s.tokCache) ∧
+    (invalidate i t s).tb = s.tb ∧ (invalidate i t s).mode = s.mode := by
+  cases i with
+  | none => exact ⟨fun _ h => h, fun _ h => h, rfl, rfl⟩
+  | token => exact invalidateTokenWith_props _ _ t s
+  | all =>
+    refine ⟨fun e he => ?_, fun e he => ?_, rfl, rfl⟩
+    all_goals simp only [invalidate, invalidateAllWith] at he
+    · split at he
+      · simp at he
+      · exact he
+    · split at he
+      · simp at he
+      · exact he
+
+theorem invalidate_token_strong (t : Nat) (s : State) (h : strong .token = true) :
+    (invalidate .token t s).permCache = s.permCache.filter (fun e => !(e.1.tid == t)) ∧
+    (invalidate .token t s).tokCache = s.tokCache.filter (fun e => !(e.1 == t)) := by
+  simp only [strong, Bool.and_eq_true, beq_iff_eq] at h
+  refine ⟨?_, ?_⟩ <;> simp only [invalidate, invalidateTokenWith, h.1, h.2, dropTokData, dropTokPerm, if_true]
+
+theorem invalidate_all_strong (t : Nat) (s : State) (h : strong .all = true) :
+    (invalidate .all t s).permCache = [] ∧ (invalidate .all t s).tokCache = [] := by
+  simp only [strong, Bool.and_eq_true] at h
+  simp [invalidate, invalidateAllWith, h.1, h.2]
+
+/-- **The lifting lemma.** If the mutation needs no invalidation, or the invalidation `i` covers its
+class (a finite check on the generated table) AND the invalidator really clears both caches
+unconditionally (generated structure facts), and the mutation's effect on the tables is within its
+class, then the cache invariant survives the mutation followed by that invalidation. -/
 theorem CInv_mutation (c : Class) (i : Inv) (t : Nat) (s : State) (tb' : Tables)
-    (hcov : covers c i = true) (heff : EffectOK c t s.tb tb') (h : CInv s.tb s.permCache s.tokCache) :
+    (hsuf : needsNone c = true ∨ (covers c i = true ∧ strong i = true))
+    (heff : EffectOK c t s.tb tb') (h : CInv s.tb s.permCache s.tokCache) :
     CInv tb' (invalidate i t { s with tb := tb' }).permCache (invalidate i t { s with tb := tb' }).tokCache := by
   obtain ⟨hb, heff⟩ := heff
   -- entries whose token is unaffected carry over
@@ -154,35 +207,46 @@ theorem CInv_mutation (c : Class) (i : Inv) (t : Nat) (s : State) (tb' : Tables)
       have hs := hP _ this.1 hPe
       refine ⟨Nat.lt_of_lt_of_le this.1 hb, fun perms hp => ?_⟩
       rw [hs.1] at hp; rw [hs.2]; exact this.2 perms hp
-  cases i with
-  | all => exact ⟨fun e he => by simp [invalidate] at he, fun e he => by simp [invalidate] at he⟩
-  | none =>
+  have hsub := invalidate_props i t { s with tb := tb' }
+  -- mutations that need no invalidation: every surviving entry is still right
+  have noneCase : needsNone c = true →
+      CInv tb' (invalidate i t { s with tb := tb' }).permCache (invalidate i t { s with tb := tb' }).tokCache := by
+    intro hn
     cases c with
     | neutral =>
       have := carry (fun _ => True) (fun tid hlt _ => heff tid hlt)
-      exact ⟨fun e he => this.1 e he trivial, fun e he => this.2 e he trivial⟩
+      exact ⟨fun e he => this.1 e (hsub.1 e he) trivial, fun e he => this.2 e (hsub.2.1 e he) trivial⟩
     | tokenGone =>
       have hc := carry (fun tid => tid ≠ t) (fun tid hlt hne => heff.2 tid hlt hne)
       refine ⟨fun e he => ?_, fun e he => ?_⟩
-      · by_cases hte : e.1.tid = t
-        · refine ⟨Nat.lt_of_lt_of_le (h.1 e he).1 hb, fun perms hp => ?_⟩
+      · have he' := hsub.1 e he
+        by_cases hte : e.1.tid = t
+        · refine ⟨Nat.lt_of_lt_of_le (h.1 e he').1 hb, fun perms hp => ?_⟩
           rw [hte, heff.1] at hp; cases hp
-        · exact hc.1 e he hte
-      · by_cases hte : e.1 = t
-        · refine ⟨Nat.lt_of_lt_of_le (h.2 e he).1 hb, fun perms hp => ?_⟩
+        · exact hc.1 e he' hte
+      · have he' := hsub.2.1 e he
+        by_cases hte : e.1 = t
+        · refine ⟨Nat.lt_of_lt_of_le (h.2 e he').1 hb, fun perms hp => ?_⟩
           rw [hte, heff.1] at hp; cases hp
-        · exact hc.2 e he hte
+        · exact hc.2 e he' hte
+    | tokenLocal => simp [needsNone] at hn
+    | global => simp [needsNone] at hn
+  rcases hsuf with hn | ⟨hcov, hstrong⟩
+  · exact noneCase hn
+  cases i with
+  | all =>
+    have := invalidate_all_strong t { s with tb := tb' } hstrong
+    rw [this.1, this.2]
+    exact ⟨fun e he => by simp at he, fun e he => by simp at he⟩
+  | none =>
+    cases c with
+    | neutral => exact noneCase rfl
+    | tokenGone => exact noneCase rfl
     | tokenLocal => simp [covers] at hcov
     | global => simp [covers] at hcov
   | token =>
-    have hmemP : ∀ e, e ∈ (invalidate .token t { s with tb := tb' }).permCache → e ∈ s.permCache ∧ e.1.tid ≠ t := by
-      intro e he
-      simp only [invalidate, List.mem_filter] at he
-      exact ⟨he.1, by simpa using he.2⟩
-    have hmemT : ∀ e, e ∈ (invalidate .token t { s with tb := tb' }).tokCache → e ∈ s.tokCache ∧ e.1 ≠ t := by
-      intro e he
-      simp only [invalidate, List.mem_filter] at he
-      exact ⟨he.1, by simpa using he.2⟩
+    have hst := invalidate_token_strong t { s with tb := tb' } hstrong
+    rw [hst.1, hst.2]
     have hsame : ∀ tid, tid < s.tb.tokBound → tid ≠ t → SameFor s.tb tb' tid := by
       cases c with
       | neutral => exact fun tid hlt _ => heff tid hlt
@@ -190,6 +254,10 @@ theorem CInv_mutation (c : Class) (i : Inv) (t : Nat) (s : State) (tb' : Tables)
       | tokenGone => exact heff.2
       | global => simp [covers] at hcov
     have hc := carry (fun tid => tid ≠ t) hsame
-    exact ⟨fun e he => hc.1 e (hmemP e he).1 (hmemP e he).2, fun e he => hc.2 e (hmemT e he).1 (hmemT e he).2⟩
+    refine ⟨fun e he => ?_, fun e he => ?_⟩
+    · have := List.mem_filter.1 he
+      exact hc.1 e this.1 (by simpa using this.2)
+    · have := List.mem_filter.1 he
+      exact hc.2 e this.1 (by simpa using this.2)
 
 end Arc.C20
